@@ -477,3 +477,43 @@ func (pr *Prog) enclosingFunc(pk *Pkg, pos token.Pos) *Func {
 	}
 	return best
 }
+
+// FuncsInFile returns the functions (declarations and literals) whose source
+// lies in the given module-relative file.
+func (pr *Prog) FuncsInFile(rel string) []*Func {
+	var out []*Func
+	for _, f := range pr.idx.all {
+		if f.Body == nil {
+			continue
+		}
+		if pr.RelFile(f.Body.Pos()) == rel {
+			out = append(out, f)
+		}
+	}
+	return out
+}
+
+func (pr *Prog) RelFile(p token.Pos) string {
+	ps := pr.Fset.Position(p)
+	rel, err := filepath.Rel(pr.Deps.Root, ps.Filename)
+	if err != nil {
+		return ps.Filename
+	}
+	return rel
+}
+
+// directCalls lists the calls in n without descending into any function
+// literal (each literal is a Func of its own).
+func directCalls(n ast.Node) []*ast.CallExpr {
+	var out []*ast.CallExpr
+	ast.Inspect(n, func(m ast.Node) bool {
+		if _, ok := m.(*ast.FuncLit); ok {
+			return false
+		}
+		if c, ok := m.(*ast.CallExpr); ok {
+			out = append(out, c)
+		}
+		return true
+	})
+	return out
+}
